@@ -17,6 +17,7 @@ EVENT_DIR = set(dir(Event()))
 DISPATCHER_ATTRS = ['cause', 'effects', 'complete_channels', 'success_channels', 'node_call_id', 'node_sock']
 RUNTIME_ATTRS = {'success_channels', 'node_call_id', 'node_sock'}   # set by Protocol itself on a received event
 ECHO = ['e0', 'e1', 'e2']
+EXCL_STD = ['__class__', '__delattr__', '__dict__', '__dir__', '__doc__', '__eq__', '__format__', '__ge__', '__getattribute__', '__getitem__', '__getstate__', '__gt__', '__hash__', '__init__', '__init_subclass__', '__le__', '__lt__', '__module__', '__ne__', '__new__', '__reduce__', '__reduce_ex__', '__repr__', '__setattr__', '__setitem__', '__setstate__', '__sizeof__', '__str__', '__subclasshook__', '__weakref__', 'alert_done', 'args', 'cancel', 'cancelled', 'cause', 'channels', 'child', 'complete', 'complete_channels', 'create', 'effects', 'failure', 'handler', 'kwargs', 'name', 'node_call_id', 'node_sock', 'node_without_result', 'notify', 'parent', 'stop', 'stopped', 'success', 'success_channels', 'uid', 'value', 'waitingHandlers']
 BOOM = ['boom']
 
 
@@ -274,7 +275,7 @@ def base_call(rng, ident):
 
 def hostile_call(rng):
     """-> (kind, python object or raw bytes)"""
-    d = base_call(rng, rng.choice([0, 1, 7, 1000]))
+    d = base_call(rng, rng.choice([1000, 1001, 7777, '0', None, True, False, [1], {}]))
     r = rng.random()
     if r < 0.30:
         for _ in range(rng.randint(1, 3)):
@@ -339,7 +340,7 @@ class C19(Prop):
     id = 'C19'
     props_file = 'Props/C19.v'
     imports = ['Model.NodeProto', 'Model.NodeProtoObs']
-    quick_n = 330
+    quick_n = 120
     thorough_n = 4000
     rule = ('two real circuits.node.Node objects (caller: Node.add -> Client -> Protocol; callee: Node(port) -> Server -> '
             'Protocol) in two managers, joined by fake transports; the harness moves the written bytes in reads of '
@@ -377,7 +378,7 @@ class C19(Prop):
         for i in range(n):
             r = rng.random()
             if r < 0.45:
-                cases.append(self.gen_proto(rng, st))
+                cases.append(self.gen_proto(rng, st, tier))
             elif r < 0.70:
                 kind, d = hostile_call(rng)
                 if isinstance(d, bytes):
@@ -399,10 +400,10 @@ class C19(Prop):
         self.stats = {'distribution': st}
         return cases
 
-    def gen_proto(self, rng, st):
+    def gen_proto(self, rng, st, tier='quick'):
         st['proto'] += 1
         r = rng.random()
-        big = r < 0.08
+        big = r < 0.08 and tier == 'thorough'      # quick tier: the > 4 KiB cases come from corpus/C19/big.json
         hostile = 0.08 <= r < 0.50
         nev = rng.randint(1, 3) if not big else 1
         events = [gen_event(rng, i, big and i == 0) for i in range(nev)]
@@ -421,6 +422,10 @@ class C19(Prop):
                 for _ in range(rng.randint(1, 2)):
                     kind, d = hostile_call(rng)
                     st['hostile_kinds'][kind] = st['hostile_kinds'].get(kind, 0) + 1
+                    if isinstance(d, dict) and isinstance(d.get('channels'), (list, str)) and len(d['channels']) > 1:
+                        d['channels'] = d['channels'][:1]   # one dispatch per channel: keep "once" observable
+                    if kind == 'big-valid' and tier != 'thorough':
+                        d['args'] = [['!', 0]]
                     ops.append(['iab', list(wire(rng, d))])
             if mode < 0.5 or rng.random() < 0.5:
                 for _ in range(rng.randint(0, 3)):
@@ -433,7 +438,7 @@ class C19(Prop):
             st['proto_big'] += 1
             ops += [['ab', 4096]] * 3
         if mode > 0.85 and not big:     # byte-at-a-time for a while
-            ops += [['ab', 1]] * 60 + [['ab', 0]] + [['ba', 1]] * 40
+            ops += [['ab', 1]] * 25 + [['ab', 0]] + [['ba', 1]] * 15
         if hostile:
             st['proto_hostile'] += 1
         else:
@@ -546,7 +551,8 @@ class C19(Prop):
 
     # ---------------------------------------------------------------- model
     def excl(self):
-        return strs(sorted(nutils.META_EXCLUDE))
+        cur = sorted(nutils.META_EXCLUDE)
+        return 'excl_std' if cur == EXCL_STD else strs(cur)
 
     def model_term(self, c):
         k = c['k']
@@ -639,7 +645,7 @@ class C19(Prop):
                 return 'serialised event contains the packet delimiter'
             return None
         # ---- proto
-        hostile_v = any(op[0] == 'iba' for op in c['ops'])
+        hostile = any(op[0] in ('iab', 'iba') for op in c['ops'])
         sent = [op[1] for op in c['ops'] if op[0] == 'send']
         for pos, i in enumerate(sent):
             sp = c['events'][i]
@@ -655,9 +661,12 @@ class C19(Prop):
                     return 'firewall: event %d (%s) was rejected by a firewall but dispatched on the peer' % (i, sp['name'])
                 continue
             handled = sp['name'] in ECHO or sp['name'] in BOOM
-            if handled and len(runs) != 1:
+            # packets injected by the harness may hit the ids of the calls in flight or abort a read that also
+            # carries honest packets: there only "at most once" is required; the final probe is always strict
+            strict = not hostile or sp['args'] == [['probe']]
+            if handled and (len(runs) > 1 or (strict and len(runs) != 1)):
                 return 'event %d (%s) ran %d times on the peer instead of once' % (i, sp['name'], len(runs))
-            if handled:
+            if handled and runs:
                 s = runs[0]
                 want = {'kwargs': sp['kwargs'], 'channels': chans, 'failure': bool(sp['failure']), 'notify': bool(sp['notify'])}
                 for f, w in want.items():
@@ -666,7 +675,7 @@ class C19(Prop):
                 bad = sorted(set(s['attrs']) & protected)
                 if bad:
                     return 'hostile-meta: dispatched event carries peer-set %r' % bad
-            if hostile_v:
+            if not strict:
                 continue
             if sp['name'] in BOOM:
                 if not call['fin'] or not (call['err'] and call['err'][0]):
